@@ -112,6 +112,19 @@ def ops : List (String × Op) := [
   ("ltgroup", do
       let fs ← pList pFeat; pArrow
       let r ← pAns (pList pGroup)
-      pure (verdict (okGroup fs r)))
+      pure (verdict (okGroup fs r))),
+  -- parse_genbank on a record and on a permutation of its features: same gene models up to child order.
+  -- Domain ("locus-tag-complete"): every tag has exactly one gene feature and is a single chain.
+  ("gbperm", do
+      let fs ← pList (do
+        let t ← pStr; let ty ← tok; let _ ← pNat; let _ ← pNat
+        let k : Kind := if ty == "gene" then .gene else if ty == "CDS" then .cds
+          else if ["mRNA", "ncRNA", "tRNA", "rRNA", "misc_RNA", "tmRNA"].contains ty then .transcript else .other
+        pure (⟨t, k, 0⟩ : Feat))
+      let _ ← (List.range fs.length).mapM (fun _ => pNat)
+      pArrow
+      let a ← get; set ([] : List String)
+      let complete := fs.all fun f => (uidsOf fs f.tag .gene).length == 1 && singleChain fs f.tag
+      if !complete then pure "n/a" else pure (verdict (a == ["ok", "same"])))
 ]
 end BioCantor.Driver.SpecQual
